@@ -19,7 +19,7 @@ def nontrivial(row):
 
 
 def key(row):
-    return '|'.join('%s%s%s' % (s['act'], s.get('p', ''), s.get('id', '')) for s in row['steps'])
+    return '|'.join('%s%s%s%s' % (s['act'], s.get('p', ''), s.get('id', ''), s.get('q', '')) for s in row['steps'])
 
 
 def generic_replay(ck, module, subcmd, plans, want, step, nontriv_fn, key_fn, extra=None, shards=None, min_nontrivial=20):
@@ -163,7 +163,7 @@ def concurrent_traces(ck, quick):
 def run(ck, replay=None):
     quick = ck.tier == 'quick'
     ck.cov['rule'] = ('behaviours = paths covering every reachable state (thorough: every transition) of Jobs.tla (up to 5 jobs; '
-                      'add / terminate / garbage-collect / Get(id) / GetLatest), replayed on a real lang.NewJobs() table with real '
+                      'add / terminate / garbage-collect / Get(id) / GetLatest / GetFromCommandLine(text) over command lines a, b, ab and six search strings), replayed on a real lang.NewJobs() table with real '
                       'Process objects; lookup results and the full listing (job ID -> process, what `jobs` prints) compared after '
                       'every step.  non-trivial = a job ends and the table is collected while another job is still running; '
                       'distinct = different operation sequences.')
